@@ -113,6 +113,24 @@ REVIEWED = [
      "DetachablePointer holds Some from construction until detach()/into() consume it by value; no method leaves None behind in a live value (R04.2 checks that new() is the only constructor and stores Some)"),
 ]
 
+def _closure_captures_only_self(cr, ckey):
+    """Every value captured where the closure `ckey` is built (in its parent validate()) derives from parameter 1 (self)."""
+    pkey = re.sub(r"::\{closure#\d+\}$", "", ckey)
+    pf = cr.fns.get(pkey)
+    if pf is None or not pf.get("body"):
+        return False
+    og = Origins(pf)
+    found = False
+    for b in pf["body"]["blocks"]:
+        for st in b["stmts"]:
+            rv = st.get("rv") or {}
+            if rv.get("k") == "agg" and (rv.get("ak") or {}).get("a") == "closure" and rv["ak"].get("path") == ckey:
+                found = True
+                leaves = set(re.findall(r"\('arg', (\d+)", repr([og.operand(o, 0) for o in rv["ops"]])))
+                if not leaves <= {"1"}:
+                    return False
+    return found
+
 def entry_fn(f):
     if f.get("kind") == "Closure":
         return True
@@ -441,6 +459,9 @@ def run(ctx):
                     if k.endswith("Validate>::validate") and leaves <= {"1"}:
                         verdicts = []     # both operands come from the validator's own fields (clock, leeway), none from the claims
                         how_op = "operands are the validator's configuration (self.*), not claim data"
+                    elif re.search(r"Validate>::validate::\{closure#\d+\}$", k) and leaves <= {"1"} \
+                            and _closure_captures_only_self(crates[cn], k):
+                        verdicts = []     # a closure inside validate(): operands come from its environment, which captures self only
                     else:
                         verdicts = ["time arithmetic that panics on overflow, operands: args " + ",".join(sorted(leaves))]
                 if not runs:
